@@ -31,7 +31,7 @@ def run(mid, checks=None, tier='quick', apply=False):
         tree = tempfile.mkdtemp(prefix='mutwt_', dir='/tmp')
         os.rmdir(tree)
         subprocess.check_call(['git', '-C', '/repo', 'worktree', 'add', '-q', '--detach', tree, 'HEAD'])
-        subprocess.check_call(['git', '-C', tree, 'apply', patch])
+        subprocess.check_call(['git', '-C', tree, 'apply', '--3way', patch])
         env['PGPY_REPO'] = tree
     results = {}
     try:
